@@ -24,6 +24,7 @@ CLAUSES = {
     "bracket_regex_set_operator": "--, && or ~~ inside a bracket expression are set operators of the regex crate, not members",
     "cond_extglob_always_on": "[[ s == p ]] must treat p as an extglob pattern even when shopt extglob is off (bash forces it inside [[ ]]); brush follows the option",
     "named_class_ascii_only": "named classes such as [[:alpha:]] are ASCII-only in the regex crate; bash in a UTF-8 locale classifies multi-byte characters too",
+    "bracket_caret_after_dropped_range": "when a reversed range is dropped from a bracket expression and the next member is ^, the emitted class starts with ^ and is read as a negation (or [^] fails to compile)",
     "regex_engine_repeated_plus_group": "the regex engine answers (X)+ Y (X)+ (from +(X)…+(X): same X twice, Y able to match the empty string, e.g. * or ?(a)) as if one occurrence of X sufficed",
 }
 
@@ -206,16 +207,18 @@ t() { p=$1; shift
 
 
 def shell_batch(which, header, body_lines):
+    """one output line per body line; lines are numbered so that a pattern that makes the shell drop or
+    add output only loses its own line (`<lost>`)"""
     def one(chunk):
-        script = header + "".join(chunk)
-        r = lib.run_shell(which, script, mode="file", timeout=900)
-        out = r["out"].split("\n")
-        if out and out[-1] == "":
-            out.pop()
-        if len(out) != len(chunk):
-            return ["<lost>"] * len(chunk)
-        return out
-    return [x for c in lib.pmap(one, lib.chunked(body_lines, lib.NCPU)) for x in c]
+        script = header + "".join("printf '%d:'; %s" % (i, l) for i, l in chunk)
+        r = lib.run_shell(which, script, mode="file", timeout=1800)
+        d = {}
+        for ln in r["out"].split("\n"):
+            k, _, v = ln.partition(":")
+            if k.isdigit():
+                d[int(k)] = v
+        return [d.get(i, "<lost>") for i, _ in chunk]
+    return [x for c in lib.pmap(one, lib.chunked(list(enumerate(body_lines)), lib.NCPU)) for x in c]
 
 
 def classify(ctx, cfg, p, s, b, o, rep, i, where, st):
@@ -239,7 +242,7 @@ def classify(ctx, cfg, p, s, b, o, rep, i, where, st):
         truth = None
     else:
         truth = o
-    defect_feature = ("\n" in s) or any(x in feats for x in "BAOK") or (nc and "C" in feats)
+    defect_feature = ("\n" in s) or any(x in feats for x in "BAOKX") or (nc and "C" in feats)
     if m != "U" and b != m:
         if truth is not None and b == truth and defect_feature:
             st["fixed"] += 1
@@ -269,6 +272,8 @@ def classify(ctx, cfg, p, s, b, o, rep, i, where, st):
         cl = "bracket_backslash_alnum"
     elif "O" in feats:
         cl = "bracket_regex_set_operator"
+    elif "X" in feats:
+        cl = "bracket_caret_after_dropped_range"
     elif nc and "C" in feats:
         cl = "nocasematch_folds_named_class"
     else:
